@@ -519,9 +519,12 @@ class TaskScenario(ScenarioData):
                                 gap_hours = self._parse_duration(gaplength)
                                 gap_slots = int(gap_hours)  # Each slot is 1 hour
                                 dep_time_idx = self.project.dateToIdx(dep_time)
-                                # Skip gap_slots of working time
+                                # Skip gap_slots of working time (never beyond the scheduling horizon:
+                                # a gap that does not fit pushes the bound past the project end and the
+                                # task is reported as unscheduled)
                                 working_slots = 0
-                                while working_slots < gap_slots:
+                                horizon_idx = self.project.dateToIdx(self.project["end"])
+                                while working_slots < gap_slots and dep_time_idx <= horizon_idx:
                                     if self.isWorkingTime(dep_time_idx):
                                         working_slots += 1
                                     dep_time_idx += 1
